@@ -169,6 +169,11 @@ class TU:
                     if x.get("kind") == "ParmVarDecl":
                         self.decl[x["id"]] = x
             elif k == "VarDecl":
+                q = c["type"]["qualType"]
+                if last_anon is not None and ("(unnamed" in q or "(anonymous" in q):
+                    m = re.search(r"\((?:unnamed|anonymous)[^)]* at ([^)]*)\)", q)
+                    if m:
+                        self.tt.anon[m.group(1)] = last_anon
                 if top:
                     # a later definition (with init) wins over an extern declaration
                     old = self.globals.get(c["name"])
@@ -292,17 +297,25 @@ def _run_clang(args, stdin_text=None, cwd=None):
     return json.loads(p.stdout), p.stderr
 
 
-def parse_file(relfile, mode):
-    """Parse a real file of the repository (no copy)."""
-    key = (core.REPO, relfile, mode)
+def parse_file(relfile, mode, extra=()):
+    """Parse a real file of the repository (no copy).  extra: further clang flags (-D..., -I <repo-relative dir> as ("-I", dir))"""
+    key = (core.REPO, relfile, mode, tuple(extra))
     if key in _CACHE:
         return _CACHE[key]
     path = repo(relfile)
     if not os.path.exists(path):
         raise Unsupported("source file %s missing" % path)
-    args = flags(mode) + [path]
+    xf = []
+    it = iter(extra)
+    for f in it:
+        if f == "-I":
+            xf += ["-I", repo(next(it))]
+        else:
+            xf.append(f)
+    args = flags(mode) + xf + [path]
     ast, _ = _run_clang(args)
     tu = TU(ast, ARM if mode == "fw" else HOST, relfile, mode, "clang -fsyntax-only -Xclang -ast-dump=json " + " ".join(args))
+    tu.extra_flags = xf
     _CACHE[key] = tu
     return tu
 
@@ -578,7 +591,7 @@ def check_layout(tu, items):
         args = ["-x", "c"] + extract_flags(getattr(tu, "includes", ())) + ["-"]
     else:
         text = '#include "%s"\n%s\n' % (repo(tu.relfile), "\n".join(lines))
-        args = flags(tu.mode) + ["-x", "c", "-"]
+        args = flags(tu.mode) + list(getattr(tu, "extra_flags", [])) + ["-x", "c", "-"]
     p = subprocess.run(["clang", "-fsyntax-only"] + args, input=text, capture_output=True, text=True)
     if p.returncode != 0:
         raise Unsupported("clang disagrees with the engine's record layout: %s" % p.stderr.strip()[-800:])
